@@ -4,7 +4,7 @@
    constructors by the correspondence sweep).  Right-hand sides: Spec/C07.v.
    Port values satisfy 0 <= v < 2^width (C06); widths are >= 1 in py4hw (stated as the hypotheses used). *)
 From V Require Import Base.Bits Gen.WireOps Gen.Helpers Gen.Prims Spec.C07 Model.StructArith.
-From V Require Import Proofs.C07.Prims Proofs.C07.Struct Proofs.C07.Rotate Proofs.C07.Shift.
+From V Require Import Proofs.C07.Prims Proofs.C07.Struct Proofs.C07.Rotate Proofs.C07.Shift Proofs.C07.Bcd Proofs.C07.Clz.
 
 (* ---- addition -------------------------------------------------------------------------------- *)
 Theorem C07_add_carry_in : forall wr a b ci, 0 <= wr ->
@@ -172,6 +172,17 @@ Theorem C07_c2_roundtrip : forall v w, 1 <= w -> - 2 ^ (w - 1) <= v < 2 ^ (w - 1
   IntegerHelper_c2_to_signed (IntegerHelper_signed_to_c2 v w) w = v.
 Proof. exact c2_roundtrip. Qed.
 
+(* ---- extensions ------------------------------------------------------------------------------- *)
+(* BinaryToBCD: every operand width and every number of digits (also when the value needs more digits) *)
+Theorem C07_binary_to_bcd : forall wa wr rnd a, 0 <= wa -> 0 <= wr -> wr mod 4 = 0 -> 0 <= a < 2 ^ wa ->
+  m_BinaryToBCD wa wr rnd a = spec_bcd wr a.
+Proof. exact BinaryToBCD_correct. Qed.
+
+(* CountLeadingZeros: every input width aw >= 1 and every result width that holds ceil(log2 aw) bits *)
+Theorem C07_count_leading_zeros : forall aw rw a, 1 <= aw -> Z.log2_up aw <= rw -> 0 <= a < 2 ^ aw ->
+  m_CountLeadingZeros aw rw a = (spec_clz aw rw a, spec_clz_z a).
+Proof. exact CountLeadingZeros_correct. Qed.
+
 (* ---- non-vacuity: concrete instances that satisfy the hypotheses ------------------------------- *)
 Example C07_ex_signed_div : m_SignedDiv 4 4 4 0 8 15 = 8 /\ spec_sdiv 4 4 4 8 15 = 8.     (* -8 / -1 wraps to 8 *)
 Proof. vm_compute. auto. Qed.
@@ -222,3 +233,5 @@ Print Assumptions C07_rotate_narrow_refuted.
 Print Assumptions C07_signed_to_c2.
 Print Assumptions C07_c2_to_signed.
 Print Assumptions C07_c2_roundtrip.
+Print Assumptions C07_binary_to_bcd.
+Print Assumptions C07_count_leading_zeros.
